@@ -431,7 +431,14 @@ func genWKB(t *rapid.T) ([]byte, string) {
 			d = append(out, d...)
 			what = "nest-multi"
 		case 6: // text / prefix framings the scanners understand
-			switch rapid.IntRange(0, 4).Draw(t, "frame") {
+			switch rapid.IntRange(0, 6).Draw(t, "frame") {
+			case 5: // "0x" / EWKT-style "SRID=…;" before the hex text
+				pre := rapid.SampledFrom([]string{"0x", "0X", "SRID=4326;", "SRID=", "srid=4326;", "\\\\x", "x"}).Draw(t, "hexpre")
+				d = append([]byte(pre), []byte(hex.EncodeToString(d))...)
+				what = "hex-vocab"
+			case 6:
+				d = append([]byte(hex.EncodeToString(d)), rapid.SampledFrom([]string{";", "=", "h", " ", "\n"}).Draw(t, "hexsuf")...)
+				what = "hex-vocab"
 			case 0:
 				d = []byte(hex.EncodeToString(d))
 				what = "hex"
@@ -472,6 +479,12 @@ var wktTokens = []string{"POINT", "LINESTRING", "POLYGON", "MULTIPOINT", "MULTIL
 var wktExtra = []string{"\t", "\n", "  ", "((", "))", "),(", ")),((", "()", "(,)", "Z", "M", "ZM", "SRID=4326;", "point", "Point", "empty",
 	"NaN", "Inf", "-Inf", "1e999", "1e-999", "0x1p-2", "1_0", "+1", ".5", "5.", ".", "e", "+", "1 2", "1 2 3", "1 2,3 4", "1,2", "١", "\x00", "\xff", "é"}
 
+// wktVocab (round M3): foreign vocabulary a WKT parser could special-case as a prefix / suffix / keyword:
+// EWKT SRID prefixes, dimension suffixes, non-finite number spellings, other geometry keywords, in mixed case.
+var wktVocab = []string{"SRID=", "SRID=4326;", "srid=", "Srid=4326;", "SRID=;", "SRID=-1;", "SRID", ";", "=", "EMPTY", "empty", "Z", "M", "ZM", "z", "POINTZ", "POINT Z",
+	"POINT ZM", "pointz", "nan", "NaN", "NAN", "inf", "-inf", "Inf", "Infinity", "-Infinity", "1e", "e5", "1e5", "0x1p3", "GEOMETRY", "geometry", "CIRCULARSTRING",
+	"CURVEPOLYGON", "COMPOUNDCURVE", "MULTICURVE", "MULTISURFACE", "POLYHEDRALSURFACE", "TIN", "TRIANGLE", "BOX(", "BOX3D(", "Box(", "LINEARRING"}
+
 var wktOpts = gen.Opts{Coord: gen.Mix(gen.SmallInt(8), gen.Half(8), gen.HostileConst(), gen.AnyFinite(), gen.Bits()), Empty: true, EmptyMembers: true, Degenerate: true, MaxDepth: 2, MaxLen: 4}
 
 func genWKT(t *rapid.T) ([]byte, string) {
@@ -481,6 +494,19 @@ func genWKT(t *rapid.T) ([]byte, string) {
 		s = "POINT(1 2)"
 	}
 	how := []string{"valid " + gen.KindOf(g)}
+	if rapid.IntRange(0, 11).Draw(t, "vocab") == 0 { // vocabulary as a prefix (1-2 tokens) or a suffix of the valid text
+		v := wktVocab[intn(t, len(wktVocab), "v1")]
+		if rapid.Bool().Draw(t, "v2") {
+			v += wktVocab[intn(t, len(wktVocab), "v2i")]
+		}
+		sep := rapid.SampledFrom([]string{"", "", " ", "\t"}).Draw(t, "vsep")
+		if rapid.IntRange(0, 3).Draw(t, "vsuffix") == 0 {
+			s = s + sep + v
+		} else {
+			s = sep + v + sep + s
+		}
+		how = append(how, "vocab")
+	}
 	parenMarks := func() []int {
 		var m []int
 		for i := 0; i < len(s); i++ {
@@ -495,7 +521,7 @@ func genWKT(t *rapid.T) ([]byte, string) {
 		var what string
 		switch rapid.IntRange(0, 8).Draw(t, "top") {
 		case 0, 1: // insert a token
-			tok := rapid.OneOf(rapid.SampledFrom(wktTokens), rapid.SampledFrom(wktExtra)).Draw(t, "tok")
+			tok := rapid.OneOf(rapid.SampledFrom(wktTokens), rapid.SampledFrom(wktExtra), rapid.SampledFrom(wktVocab)).Draw(t, "tok")
 			p := pos(t, len(s), parenMarks(), "tp")
 			s = s[:p] + tok + s[p:]
 			what = "token"
@@ -505,7 +531,7 @@ func genWKT(t *rapid.T) ([]byte, string) {
 				break
 			}
 			p := pos(t, len(s)-1, parenMarks(), "rp")
-			tok := rapid.OneOf(rapid.SampledFrom(wktTokens), rapid.SampledFrom(wktExtra)).Draw(t, "rtok")
+			tok := rapid.OneOf(rapid.SampledFrom(wktTokens), rapid.SampledFrom(wktExtra), rapid.SampledFrom(wktVocab)).Draw(t, "rtok")
 			s = s[:p] + tok + s[p+1:]
 			what = "replace"
 		case 3: // nest in collections
@@ -560,7 +586,7 @@ func deepArray(depth int, leaf interface{}) interface{} {
 }
 
 func hostileJSON(t *rapid.T) interface{} {
-	switch rapid.IntRange(0, 24).Draw(t, "hj") {
+	switch rapid.IntRange(0, 25).Draw(t, "hj") {
 	case 0:
 		return nil
 	case 1:
@@ -615,12 +641,19 @@ func hostileJSON(t *rapid.T) interface{} {
 		return map[string]interface{}{"type": "Feature", "geometry": nil, "properties": nil}
 	case 23:
 		return map[string]interface{}{"type": "Feature", "geometry": map[string]interface{}{"type": "Point", "coordinates": []interface{}{1.0, 2.0}}, "properties": map[string]interface{}{"a": 1.0}}
+	case 24:
+		return rapid.SampledFrom([]interface{}{
+			map[string]interface{}{"$oid": "5f2b6d1e9c3a4b0012345678"},
+			map[string]interface{}{"type": "name", "properties": map[string]interface{}{"name": "urn:ogc:def:crs:EPSG::4326"}},
+			"5F2B6D1E9C3A4B0012345678", "123e4567-e89b-12d3-a456-426614174000", "null", "true", "2020-01-02T03:04:05Z", "12345", "SRID=4326;POINT(1 2)",
+			[]interface{}{0.0, 0.0, 1.0, 1.0}, []interface{}{0.0, 0.0, 0.0, 1.0, 1.0, 1.0},
+		}).Draw(t, "vocabj")
 	default:
 		return "x"
 	}
 }
 
-var jsonKeys = []string{"type", "coordinates", "geometries", "geometry", "features", "properties", "bbox", "id", "crs", "extra", ""}
+var jsonKeys = []string{"type", "coordinates", "geometries", "geometry", "features", "properties", "bbox", "id", "crs", "extra", "", "$oid", "_id", "$ref", "name", "TYPE", "Type"}
 
 type jsonPath struct {
 	parent interface{} // map[string]interface{} or []interface{}
